@@ -155,6 +155,21 @@ def regen(ctx, prop_modules=None):
     sys.path.insert(0, os.path.join(VERIF, "tools"))
     import extract
     msgs = extract.regenerate(REPO, os.path.join(LEAN, "Percival", "Gen"), detailed=True)
+    # a generated module that does not compile (the translator produced something from a shape it half-recognised) must not
+    # take `pmodel`, and with it every property, down: it is replaced by its fallback copy and reported like a failed extraction
+    gendir = os.path.join(LEAN, "Percival", "Gen")
+    mods = sorted(f[:-5] for f in os.listdir(gendir) if f.endswith(".lean"))
+    ok, out = lake_build(["Percival.Gen." + m for m in mods])
+    if not ok:
+        for m in mods:
+            if re.search(r"Building Percival\.Gen\.%s\b" % re.escape(m), out) and re.search(r"error", out):
+                ok1, _ = lake_build(["Percival.Gen." + m])
+                if ok1:
+                    continue
+                done, soft = extract.use_fallback(gendir, m)
+                txt = "generated Gen/%s.lean does not compile (source shape half-recognised)" % m
+                msgs.append((m, ("SOFT %s — documented constants used for the model, tie = correspondence run only" % txt) if (done and soft)
+                             else txt + ("; fallback copy used so that other properties are not affected" if done else "")))
     cone = None
     if prop_modules:
         cone = set()
